@@ -122,11 +122,19 @@ pub fn gen_bytes(rng: &mut Rng) -> Vec<u8> {
                 }
                 2 => {
                     b.push(2);
-                    // a plausible extension: type u16, length u16, value
+                    // a plausible extension: type u16, length u16, value; every header shape incl. the
+                    // uninitialised type 0 with a non-zero length, unknown types, lengths past the end
                     let l = rng.below(60) as usize;
-                    b.extend_from_slice(&(rng.range(1, 20) as u16).to_le_bytes());
-                    b.extend_from_slice(&(l as u16).to_le_bytes());
+                    let ty: u16 = match rng.below(6) { 0 => 0, 1 => 0xffff, 2 => rng.range(20, 70) as u16, _ => rng.range(1, 20) as u16 };
+                    let stated: u16 = match rng.below(5) { 0 => 0, 1 => l as u16 + 1, 2 => 0xffff, _ => l as u16 };
+                    b.extend_from_slice(&ty.to_le_bytes());
+                    b.extend_from_slice(&stated.to_le_bytes());
                     b.extend(rng.bytes(l));
+                    if rng.chance(1, 3) {
+                        b.extend_from_slice(&[0, 0, rng.range(1, 255) as u8, 0]);
+                        let k6 = rng.below(6) as usize;
+                        b.extend(rng.bytes(k6));
+                    }
                 }
                 3 => {
                     // pad to exactly the multisig length
@@ -348,9 +356,9 @@ pub fn run(ctx: &Ctx, prop: &str) -> Report {
     rep.corr_module = "Token".into();
     if prop == "C16" {
         rep.expect_classes(&["ref:token:account", "ref:token:mint", "ref:2022:account", "ref:2022:account:extended", "ref:2022:mint", "ref:2022:mint:extended",
-            "generic:PToken:account", "generic:PToken:mint", "generic:PToken2022:account", "generic:PToken2022:mint", "length:>=64KiB:well-formed-extended", "corpus:own-constants", "address-offset:3"]);
+            "generic:PToken:account", "generic:PToken:mint", "generic:PToken2022:account", "generic:PToken2022:mint", "length:>=64KiB:well-formed-extended", "corpus:own-constants", "address-offset:3", "length:>4GiB"]);
     } else {
-        rep.expect_classes(&["generic:PToken:account", "generic:PToken:mint", "generic:PToken2022:account", "generic:PToken2022:mint", "length:>=64KiB", "corpus:own-constants", "address-offset:3"]);
+        rep.expect_classes(&["generic:PToken:account", "generic:PToken:mint", "generic:PToken2022:account", "generic:PToken2022:mint", "length:>=64KiB", "corpus:own-constants", "address-offset:3", "length:>4GiB"]);
     }
     // ids and lengths are read from the crates
     if token::Account::get_packed_len() != 165 || token::Mint::get_packed_len() != 82
@@ -410,6 +418,22 @@ pub fn run(ctx: &Ctx, prop: &str) -> Report {
         }
         for id in ids {
             // an account whose mint / owner is one of the well-known keys; a mint whose authorities are
+            // fully populated accounts (delegate, native reserve, close authority) of that mint / owner
+            for _ in 0..3 {
+                let mut f = packed_account(&mut rng);
+                f[0..32].copy_from_slice(&id.to_bytes());
+                f[108] = 1;
+                f[109..113].copy_from_slice(&1u32.to_le_bytes());
+                f[113..121].copy_from_slice(&rng.range(1, u64::MAX).to_le_bytes());
+                run_one(&mut rep, prop, &f, true);
+                let mut e = f.clone();
+                e.push(2);
+                e.extend_from_slice(&rng.bytes(9));
+                run_one(&mut rep, prop, &e, true);
+                f[0..32].copy_from_slice(&rng.bytes(32));
+                f[32..64].copy_from_slice(&id.to_bytes());
+                run_one(&mut rep, prop, &f, true);
+            }
             for other in [id, Pubkey::new_from_array([9u8; 32])] {
                 let mut a = vec![0u8; 165];
                 a[0..32].copy_from_slice(&id.to_bytes());
@@ -464,6 +488,34 @@ pub fn run(ctx: &Ctx, prop: &str) -> Report {
         m[165] = 1;
         run_one(&mut rep, prop, &m, false);
         rep.count("length:>=64KiB:well-formed-extended");
+    }
+    // buffers longer than 4 GiB (lazily zeroed: only the pages written to are ever touched): lengths that
+    // equal a base length modulo 2^32 must not be taken for it
+    for &(extra, v45, v108, v165) in &[(82usize, 1u8, 0u8, 0u8), (82, 1, 1, 2), (165, 1, 1, 0), (165, 1, 1, 1), (165, 0, 1, 2), (166, 1, 1, 2), (355, 1, 1, 1), (0, 1, 1, 2)] {
+        let n = (1usize << 32) + extra;
+        let mut b = vec![0u8; n];
+        b[0] = 7;
+        b[36] = 5;
+        b[44] = 6;
+        b[45] = v45;
+        b[64] = 9;
+        b[108] = v108;
+        b[165] = v165;
+        rep.count("length:>4GiB");
+        for (k, id) in [token::id(), token_2022::id()].iter().enumerate() {
+            let a = catch_plain(|| generic_token::Account::unpack(&b, id).map(|a| (a.mint.to_bytes()[0], a.amount)));
+            let m = catch_plain(|| generic_token::Mint::unpack(&b, id).map(|m| (m.supply, m.decimals)));
+            rep.monitor_runs += 2;
+            let want_a = k == 1 && v165 == 2 && v108 != 0;
+            let want_m = k == 1 && v165 == 1 && v45 != 0;
+            let ok_a = a == Res::Ok(if want_a { Some((7u8, 9u64)) } else { None });
+            let ok_m = m == Res::Ok(if want_m { Some((5u64, 6u8)) } else { None });
+            if !ok_a || !ok_m {
+                rep.violate("acceptance-set", "a buffer longer than 4 GiB is parsed against the documented rule (exact base lengths; Token-2022: longer than 165, not 355, matching marker, initialised)",
+                    serde_json::json!({"length": format!("2^32 + {}", extra), "byte45": v45, "byte108": v108, "byte165": v165, "program": if k == 0 { "Token" } else { "Token-2022" },
+                        "account": format!("{:?}", a), "mint": format!("{:?}", m)}).to_string());
+            }
+        }
     }
     let n_coq = ctx.scale(900, 12000);
     for _ in 0..n_coq {
